@@ -364,15 +364,50 @@ class Gen:
         self.note("address: single-character corruptions", ncorr)
 
 
+def run_par(cmd, lines, nchunks, workdir, tag, timeout=3000):
+    """run `cmd` over the case lines split into nchunks concurrent processes (each process is single-threaded);
+    returns (rc, {id: result}, oracle_failures, stderr) like vlib.run_lines"""
+    nchunks = max(1, min(nchunks, (len(lines) + 19999) // 20000))
+    files = []
+    for i in range(nchunks):
+        fn = os.path.join(workdir, "in-%s-%d.txt" % (tag, i))
+        with open(fn, "w") as f:
+            f.writelines(lines[i::nchunks])
+        files.append(fn)
+    procs = []
+    for fn in files:
+        fin = open(fn, "rb")
+        procs.append((subprocess.Popen(cmd, stdin=fin, stdout=subprocess.PIPE, stderr=subprocess.PIPE), fin))
+    res, orc, errs, rc = {}, [], "", 0
+    deadline = time.time() + timeout
+    for p, fin in procs:
+        try:
+            out, err = p.communicate(timeout=max(1, deadline - time.time()))
+        except subprocess.TimeoutExpired:
+            p.kill()
+            out, err = p.communicate()
+            rc = rc or 124
+        fin.close()
+        rc = rc or p.returncode
+        errs += err.decode("utf-8", "replace")[-500:]
+        for line in out.decode("utf-8", "replace").split("\n"):
+            if not line:
+                continue
+            if line[0] == "!":
+                i, _, t = line[1:].partition(" ")
+                orc.append((i, t))
+                continue
+            i, _, t = line.partition(" ")
+            res[i] = t
+    return rc, res, orc, errs
+
+
 def run_stream(ctx, model, impl, cases, tag):
-    inp = os.path.join(ctx.work, "cases-%s.txt" % tag)
-    with open(inp, "w") as f:
-        for cid, op, args in cases:
-            f.write("%s %s %s\n" % (cid, op, " ".join(args)))
+    lines = ["%s %s %s\n" % (cid, op, " ".join(args)) for cid, op, args in cases]
     t0 = time.time()
-    rc1, mres, _, merr = vlib.run_lines([model], inp, timeout=3000)
+    rc1, mres, _, merr = run_par([model], lines, min(8, vlib.NCPU), ctx.work, tag + "m")
     t1 = time.time()
-    rc2, ires, orc, ierr = vlib.run_lines([impl], inp, timeout=3000)
+    rc2, ires, orc, ierr = run_par([impl], lines, 2, ctx.work, tag + "i")
     t2 = time.time()
     return rc1, rc2, mres, ires, orc, merr + ierr, (round(t1 - t0, 2), round(t2 - t1, 2))
 
